@@ -717,3 +717,7 @@ def check(run, replay=None):
     run.require_counter("bloboverlaps_calls", 100)
     run.require_counter("bloboverlaps_calls_merging_current_blobs", 20)
     run.require_counter("blob_moments_calls", 100)
+
+
+# workloads added in seeding rounds 7-10 (DESIGN.md sections 13.9-13.12)
+LEVEL_TEXT = LEVEL_TEXT + ' Later additions: scripts/peaksearch.py with the frame angle under a motor name (alone or next to a stale Omega key), both drivers.'
